@@ -92,6 +92,18 @@ func (ex *Exec) mapUpdate(fr *Frame, st *State, in *ssa.MapUpdate) {
 	kv := ex.value(fr, st, in.Key)
 	vv := ex.value(fr, st, in.Value)
 	ex.oblige(fr, st, "nil", "", not(eq(mv.L[0], "0")), in.Pos(), "assignment to entry in nil map: "+ex.srcLine(in.Pos()))
+	// call-site event "map-update": arg0 the map, arg1 the key, arg2 the stored value
+	ex.checkCallSites(fr, st, "map-update", []Val{mv, kv, vv}, in.Pos())
+	if u, ok := in.Map.(*ssa.UnOp); ok {
+		if fa, ok := u.X.(*ssa.FieldAddr); ok {
+			if pt, ok := fa.X.Type().Underlying().(*types.Pointer); ok {
+				if stT, ok := pt.Elem().Underlying().(*types.Struct); ok {
+					// "map-update:<field>": updates of the map held in that struct field
+					ex.checkCallSites(fr, st, "map-update:"+stT.Field(fa.Field).Name(), []Val{mv, kv, vv}, in.Pos())
+				}
+			}
+		}
+	}
 	ex.mapSet(st, in.Map.Type(), mv.L[0], kv, vv, "true")
 }
 
